@@ -97,3 +97,9 @@ From XcpPins Require Import Pin_main_expand_sources.
 Theorem C16_src_pin_main_expand_sources : pin_unchanged name_main_expand_sources.
 Proof. exact pin_main_expand_sources. Qed.
 Print Assumptions C16_src_pin_main_expand_sources.
+
+(* ---- more glue on this property's path, pinned token for token ---- *)
+From XcpPins Require Import Pin_operations_tree_walker.
+Theorem C16_src_pin_operations_tree_walker : pin_unchanged name_operations_tree_walker.
+Proof. exact pin_operations_tree_walker. Qed.
+Print Assumptions C16_src_pin_operations_tree_walker.
